@@ -4,6 +4,7 @@ CONSTANTS
   ConnStates = {"up"}
   MaxReplies = 2
   LeakOnSendError = FALSE
+  MatchCreation = TRUE
   RemoveOnTimeout = TRUE
 CHECK_DEADLOCK FALSE
 ACTION_CONSTRAINT Emit
